@@ -314,7 +314,11 @@ Definition do_lookup_done (q : nat) (r : lres) (s : state) : state :=
       let s1 := modc q (set_pending rest) s in
       match r with
       | RRaise => bad q s1
-      | RLook l => st (authenticate (ppq q) q i dg l s1)   (* an exception here is swallowed by the loop *)
+      | RLook l =>
+          match authenticate (ppq q) q i dg l s1 with
+          | Raise s2 => cl q s2          (* on_auth_result: except Exception: ...; self.transport.close() *)
+          | r' => st r'
+          end
       end
   end.
 
